@@ -16,6 +16,6 @@ json.dump({"property": prop, "change": change, "needs_to_manifest": needs,
            "independent_confirmation": "tools/confirm_mutant.sh in the sub-agent's scratch worktree: clean_demo=0, Makefile.unx -k check same as the clean tree "
                                        "(36 complete, only the pre-existing mh_sha256_test reference miscompile fails), mutated_demo=1",
            "checks_run": "tools/try_mutant.sh patch.diff %s (git apply to /repo, run the check, git checkout)" % prop,
-           "detected_by": det, "rebased": None, "round": 2,
+           "detected_by": det, "rebased": None, "round": int(os.environ.get("SEED_ROUND", "2")),
            "origin": "fresh sub-agent given only the property text and a scratch worktree"}, open(os.path.join(dst, "meta.json"), "w"), indent=1)
 print(dst)
